@@ -1,7 +1,7 @@
 """C25 Host state changes keep a single reconnector and notify listeners once (W-FULL)."""
 from dsim import seams
 from dsim.core import HarnessError
-from props.common import gen_strategy, quiet_logging, Violations, set_knob
+from props.common import gen_stalls, gen_strategy, quiet_logging, Violations, set_knob
 from worlds.full import FullWorld, default_cluster_spec, ReqObs
 
 ID = 'C25'
@@ -75,10 +75,13 @@ def gen_plan(rng, tier):
         if rng.random() < 0.3:
             events.append({'at': round(t1 + rng.choice([0.3, 1.0]), 3), 'kind': rng.choice(['ev_up_dup', 'ev_down_stale', 'rst_control']), 'node': rng.randrange(n),
                            'how': 'rst', 'announce': None})
-    return {'cluster': default_cluster_spec(n), 'version': 4, 'events': events, 'sessions': rng.choice([1, 1, 2]), 'slow_connect': slow,
+    plan_ = {'cluster': default_cluster_spec(n), 'version': 4, 'events': events, 'sessions': rng.choice([1, 1, 2]), 'slow_connect': slow,
             'executor_threads': rng.choice([1, 2, 4]), 'window': rng.choice([0, 0.2, 1.0]),
             'reconnect_delay': rng.choice([0.3, 0.7, 1.5]), 'traffic': rng.random() < 0.6,
-            'strategy': gen_strategy(rng), 'time_jump_p': 0, 'line_p': rng.choice([0, 0, 0.005]), 'points': rng.choice([0, 2, 4])}
+            'strategy': gen_strategy(rng), 'time_jump_p': 0, 'line_p': rng.choice([0, 0, 0.005]), 'points': rng.choice([0, 2, 4]),
+            'stalls': gen_stalls(rng, ['on_up', 'on_down', '_start_reconnector', 'on_remove', '_on_up_future_completed', 'run'], 0.25)}
+    plan_.update(plan_.pop('stalls'))
+    return plan_
 
 
 def run_plan(plan, seed, choices=None):
@@ -113,7 +116,7 @@ def run_plan(plan, seed, choices=None):
     wrap('try_reconnect', 'attempt')
     wrap('on_reconnection', 'success')
     wrap('on_exception', 'exception', after=True)
-    if plan.get('line_p') or plan.get('points'):
+    if plan.get('line_p') or plan.get('points') or plan.get('focus_stall'):
         C = w.ccl.Cluster
         sim.enable_line_preemption([C.on_up, C.on_down, C._start_reconnector, C.on_remove, C._on_up_future_completed,
                                     w.cpool._ReconnectionHandler.run], p=plan.get('line_p', 0), points=plan.get('points', 0), est_lines=2000)
